@@ -47,6 +47,7 @@ func plans(id, tier string) (Plan, bool) {
 		for _, t := range ts[:pick(2, 4)] {
 			jobs = append(jobs, Job{Pkg: pkgV2, Harness: "c01_sequences", Params: "t=" + t, Shards: pick(2, 8)})
 		}
+		jobs = append(jobs, Job{Pkg: pkgV2, Harness: "c01_lengths", Shards: 16})
 		for _, t := range []string{"0.7", "0.8", "0.9"} {
 			jobs = append(jobs, Job{Pkg: pkgV2, Harness: "c01_composites", Params: "t=" + t, Shards: 2})
 		}
